@@ -82,9 +82,15 @@ def cli_opts(cfg):
     a, b = cfg.get("range", (0, 0))
     if a or b:
         o += ["-r", "%s~%s" % (fmt_ts(a) if a else "", fmt_ts(b) if b else "")]
+    for k, v in sorted(cfg.get("loc", {}).items()):
+        o += ["-L", src_file(k) + ("" if v else "@hide")]
     if not cfg.get("libcall", True):
         o += ["--no-libcall"]
     return o
+
+
+def src_file(k):
+    return "u%d.c" % k
 
 
 def coq_opt(v, z=False):
@@ -109,11 +115,12 @@ def coq_cfg(cfg, no_merge=False):
     fm = any(t.get("filter") is True for t in trig.values())
     cl = any(t.get("caller") for t in trig.values())
     a, b = cfg.get("range", (0, 0))
-    return "(mkcfg [%s] %s %s (%d)%%Z (%d)%%N (%d)%%N (%d)%%N [%s] %s %s)" % (
+    return "(mkcfgL [%s] %s %s (%d)%%Z (%d)%%N (%d)%%N (%d)%%N [%s] %s %s [%s])" % (
         "; ".join("((%d)%%N, %s)" % (k, coq_rtrig(t)) for k, t in sorted(trig.items())),
         coq.coq_bool(fm), coq.coq_bool(cl), cfg["depth"] if cfg.get("depth") is not None else 1024,
         cfg.get("threshold") or 0, a, b, "; ".join("(%d)%%N" % k for k in cfg.get("plt", [])),
-        coq.coq_bool(cfg.get("libcall", True)), coq.coq_bool(no_merge))
+        coq.coq_bool(cfg.get("libcall", True)), coq.coq_bool(no_merge),
+        "; ".join("((%d)%%N, %s)" % (k, coq.coq_bool(v)) for k, v in sorted(cfg.get("loc", {}).items())))
 
 
 def coq_call(c):
@@ -127,7 +134,10 @@ def coq_forest(f):
 # ---------------------------------------------------------------- data directory
 def syms_for(cfg):
     plt = set(cfg.get("plt", []))
-    return [(0x1000 + 0x100 * i, 0x80, "P" if i in plt else "T", NAMES[i]) for i in range(NFUN)]
+    # `_start` is in every real symbol table; uftrace graph -D hangs its synthetic depth trigger on it (without it the
+    # trigger matches nothing, setup_fstack_filters() gives up and the later -C/-H/-L options are dropped)
+    return [(0x1000 + 0x100 * i, 0x80, "P" if i in plt else "T", NAMES[i]) for i in range(NFUN)] + [
+        (0x1000 + 0x100 * (NFUN + 2), 0x40, "T", "_start")]
 
 
 def addr_of(k):
@@ -138,6 +148,14 @@ def write_dir(d, cfg, recs):
     if os.path.exists(d):
         shutil.rmtree(d)
     datadir.write({"syms": syms_for(cfg), "base": BASE, "tasks": [{"tid": TID, "pid": TID, "recs": recs}]}, d)
+    write_dbg(d, cfg)
+
+
+def write_dbg(d, cfg):
+    """debug info of the data directory (as `record --srcline` saves it): every function in its own source file"""
+    with open(os.path.join(d, "prog.dbg"), "w") as f:
+        for i, (a, sz, t, n) in enumerate(syms_for(cfg)[:NFUN]):
+            f.write("F: %x %s\nL: %d %s\n" % (a, n, 10 + i, src_file(i)))
 
 
 FN = {n: i for i, n in enumerate(NAMES)}
@@ -481,6 +499,29 @@ def gen_case(rng, kind, eq=True):
             if t in cfg["range"]:
                 tags.append("range:end-on-timestamp")
                 break
+    if kind in ("loc", "lochide", "locmix"):
+        cfg["loc"] = {}
+        for _ in range(rng.choice([1, 2, 3])):
+            cfg["loc"][pick()] = (kind == "loc") or (kind == "locmix" and rng.random() < 0.6)
+        if kind == "locmix":
+            what = rng.choice(["depth", "filter", "deptrig", "switch", "time", "hide"])
+            tags.append("locmix:" + what)
+            if what == "depth":
+                cfg["depth"] = rng.choice([1, 2, 3])
+            elif what == "filter":
+                trig(pick())["filter"] = rng.choice([True, False])
+            elif what == "deptrig":
+                trig(rng.choice(sorted(cfg["loc"])))["depth"] = rng.choice([0, 1, 2])
+            elif what == "switch":
+                k0 = rng.choice(sorted(cfg["loc"]))
+                trig(k0)["trace_off"] = True
+                k1 = pick()
+                if k1 != k0:
+                    trig(k1)["trace_on"] = True
+            elif what == "time":
+                cfg["threshold"] = T
+            else:
+                trig(pick())["hide"] = True
     if kind in ("pltleaf", "plt"):
         cfg["libcall"] = False
         leafs = sorted(set(c.k for c in calls if not c.kids) - set(c.k for c in calls if c.kids))
@@ -524,7 +565,7 @@ def gen_case(rng, kind, eq=True):
 
 
 KINDS = ["plain", "depth", "filter", "notrace", "fn", "fd", "time", "timetrig", "caller", "caller_time", "hide",
-         "deptrig", "fdt", "mix", "mix2", "switch", "switch_f", "range", "range_only", "pltleaf", "plt"]
+         "deptrig", "fdt", "mix", "mix2", "switch", "switch_f", "range", "range_only", "loc", "lochide", "locmix", "pltleaf", "plt"]
 
 
 # ---------------------------------------------------------------- meta
@@ -577,6 +618,9 @@ def case_json(case):
 def cfg_json(cfg):
     j = dict(cfg)
     j["trig"] = {str(k): v for k, v in cfg.get("trig", {}).items()}
+    for key in ("loc", "loc_files"):
+        if key in j:
+            j[key] = {str(k): v for k, v in j[key].items()}
     if "range" in j:
         j["range"] = list(j["range"])
     return j
@@ -587,6 +631,9 @@ def cfg_unjson(j):
     cfg["trig"] = {int(k): v for k, v in j.get("trig", {}).items()}
     if "range" in cfg:
         cfg["range"] = tuple(cfg["range"])
+    for key in ("loc", "loc_files"):
+        if key in cfg:
+            cfg[key] = {int(k): v for k, v in cfg[key].items()}
     return cfg
 
 
@@ -891,6 +938,7 @@ def line3(ctx, objdir, todo):
                 shutil.rmtree(d)
             datadir.write({"syms": syms_for(cfg), "base": BASE,
                            "tasks": [{"tid": TID + i, "pid": TID, "recs": recs_of(f)} for i, f in enumerate(fs)]}, d)
+            write_dbg(d, cfg)
             out = run_commands_m(objdir, d, cfg, sp)
         except ParseError as e:
             ctx.violation("an analysis command failed or printed something unexpected (several tasks): %s" % e,
@@ -941,7 +989,7 @@ def verdict3(ctx, cases, res):
     ctx.extra["disagreements_checked"] = ctx.extra.get("disagreements_checked", 0) + sum(len(v) for v in mm.values())
 
 
-KINDS3 = ["plain", "depth", "filter", "fn", "fd", "time", "timetrig", "caller", "hide", "deptrig", "mix", "mix2", "switch",
+KINDS3 = ["plain", "depth", "filter", "fn", "fd", "time", "timetrig", "caller", "hide", "deptrig", "mix", "mix2", "switch", "loc", "locmix",
           "range", "pltleaf", "plt"]
 
 
@@ -966,10 +1014,15 @@ def gen_program(rng):
             continue
         if count[0] < 4:
             continue
-        src = ["volatile int sink;", "#define NI __attribute__((noinline))"]
+        # function i lives in source file s<i%3>.c (for -L); one header declares everything
+        src = {"p.h": "extern volatile int sink;\n#define NI __attribute__((noinline))\n"
+               + "".join("void %s(void);\n" % NAMES[i] for i in range(1, NFUN))}
+        for j in range(3):
+            src["s%d.c" % j] = '#include "p.h"\n' + ("volatile int sink;\n" if j == 0 else "")
         for i in range(NFUN - 1, 0, -1):
-            src.append("NI void %s(void) { sink++; %s }" % (NAMES[i], " ".join("%s();" % NAMES[j] for j in calls[i])))
-        src.append("int main(void) { %s sink++; return 0; }" % " ".join("%s();" % NAMES[j] for j in calls[0]))
+            src["s%d.c" % (i % 3)] += "NI void %s(void) { sink++; %s }\n" % (
+                NAMES[i], " ".join("%s();" % NAMES[j] for j in calls[i]))
+        src["s0.c"] += "int main(void) { %s sink++; return 0; }\n" % " ".join("%s();" % NAMES[j] for j in calls[0])
         f = [tree]
         clock = [1000]
 
@@ -981,14 +1034,24 @@ def gen_program(rng):
             clock[0] += 3
             c.t1 = clock[0]
         stamp(tree)
-        return "\n".join(src) + "\n", f
+        return src, f
     raise RuntimeError("could not generate a program")
 
 
 def gen_e2e_cfg(rng, f):
     used = sorted(set(c.k for c in fcalls(f)))
     cfg = {"trig": {}}
-    kind = rng.choice(["depth", "filter", "notrace", "fn", "fd", "fnd"])
+    kind = rng.choice(["depth", "filter", "notrace", "fn", "fd", "fnd", "loc", "loc", "locd"])
+    if kind in ("loc", "locd"):
+        # -L FILE / -L FILE@hide: every function of the file gets the location trigger
+        files = {}
+        for _ in range(rng.choice([1, 1, 2])):
+            files[rng.randrange(3)] = rng.random() < 0.6
+        cfg["loc"] = {k: v for k in range(NFUN) for j, v in files.items() if k % 3 == j}
+        cfg["loc_files"] = files
+        if kind == "locd":
+            cfg["depth"] = rng.choice([1, 2, 3])
+        return kind, cfg
     if kind in ("depth", "fd", "fnd"):
         cfg["depth"] = rng.choice([1, 2, 3, max(1, fheight(f) - 1)])
     if kind in ("filter", "fn", "fd", "fnd"):
@@ -1000,6 +1063,17 @@ def gen_e2e_cfg(rng, f):
             if not cfg["trig"].get(k):
                 cfg["trig"][k] = {"filter": False}
     return kind, cfg
+
+
+def e2e_opts(cfg):
+    """command line of an end-to-end option set: -L takes the real source file names"""
+    c = dict(cfg)
+    files = c.pop("loc_files", {})
+    c.pop("loc", None)
+    o = cli_opts(c)
+    for j, v in sorted(files.items()):
+        o += ["-L", "s%d.c%s" % (j, "" if v else "@hide")]
+    return o
 
 
 def parse_replay_known(out):
@@ -1035,22 +1109,25 @@ def line4(ctx, objdir, nprog, ncfg):
             raise ParseError("uftrace replay %s failed rc=%d: %s" % (" ".join(opts), rc, (out + err)[-300:]))
         return parse_replay_known(out)
     for pi in range(nprog):
-        src, f = gen_program(rng)
-        with open(os.path.join(root, "p.c"), "w") as fh:
-            fh.write(src)
+        srcs, f = gen_program(rng)
+        for name, text in srcs.items():
+            with open(os.path.join(root, name), "w") as fh:
+                fh.write(text)
+        src = "".join("/* %s */\n%s" % (n, t) for n, t in sorted(srcs.items()))
         exes = {}
         for shape, flags in (("pg", ["-pg"]), ("cyg", ["-finstrument-functions"])):
             exe = os.path.join(root, "p_%s" % shape)
-            sh(["gcc", "-O0", "-w", "-fno-builtin"] + flags + ["-o", exe, os.path.join(root, "p.c")], check=True)
+            sh(["gcc", "-O0", "-g", "-w", "-fno-builtin"] + flags + ["-o", exe] + ["s0.c", "s1.c", "s2.c"], check=True,
+               cwd=root)
             exes[shape] = exe
         for shape, exe in exes.items():
             full = os.path.join(root, "full")
             try:
-                record(exe, full, [])
+                record(exe, full, ["--srcline"])
                 base = replay(full, [])
                 for _ in range(ncfg):
                     kind, cfg = gen_e2e_cfg(rng, f)
-                    o = cli_opts(cfg)
+                    o = e2e_opts(cfg)
                     record(exe, os.path.join(root, "filt"), o)
                     cases.append({"kind": kind, "shape": shape, "cfg": cfg, "forest": f, "src": src,
                                   "rec": replay(os.path.join(root, "filt"), []), "opt": replay(full, o), "base": base})
@@ -1075,8 +1152,8 @@ def verdict4(ctx, cases, res):
     for i in res["v_e2e"][:3]:
         c = cases[i]
         ctx.violation("C07 violated end to end (%s): `record %s` + replay, `record` + `replay %s` and the documented "
-                      "selection differ" % (c["shape"], " ".join(cli_opts(c["cfg"])), " ".join(cli_opts(c["cfg"]))),
-                      {"line": 4, "program": c["src"], "shape": c["shape"], "options": cli_opts(c["cfg"]),
+                      "selection differ" % (c["shape"], " ".join(e2e_opts(c["cfg"])), " ".join(e2e_opts(c["cfg"]))),
+                      {"line": 4, "program": c["src"], "shape": c["shape"], "options": e2e_opts(c["cfg"]),
                        "record_with_options_then_replay": c["rec"], "record_then_replay_with_options": c["opt"],
                        "forest": [x.to_json() for x in c["forest"]], "cfg": cfg_json(c["cfg"])}, True)
 
